@@ -193,6 +193,24 @@ def _handle_suspended(
     to SUSPENDED and do NOT push any continuation messages. The stage
     will be resumed when a SignalStage message is received.
     """
+    if task_model.status != WorkflowStatus.RUNNING or stage.status != WorkflowStatus.RUNNING:
+        # The freshly loaded task/stage was canceled, completed or reset while
+        # the task body was executing (e.g. a concurrent CancelStage). A suspend
+        # result must not overwrite that durable status: consume the message
+        # without touching the stage.
+        logger.info(
+            "Ignoring SUSPENDED result for task %s: task is %s, stage is %s",
+            task_model.name,
+            task_model.status,
+            stage.status,
+        )
+        txn_helper.execute_atomic(
+            source_message=message,
+            messages_to_push=[],
+            handler_name="RunTask",
+        )
+        return
+
     logger.info(
         "Task %s suspended, waiting for signal",
         task_model.name,
